@@ -152,6 +152,10 @@ SPECS = {
 }
 
 SPEC_TEXT = {}
+NEAR_HINTS = {}
+for _c in SPECS["YAEP_FIXED_NAME_USAGE"][4]:
+    NEAR_HINTS[_c] = ["grammar.axiom] == symb_find_by_repr(", "grammar.end_marker] == symb_find_by_repr("]
+    SPEC_TEXT[_c] = "any(<symbol> == grammar->axiom | <symbol> == grammar->end_marker)"
 for _spec in SPECS["YAEP_NONTERM_DERIVATION"]:
     for _c in _spec:
         if _c.startswith("re:"):
@@ -243,6 +247,12 @@ def rule_code_table(ctx, rep, config="c-lib"):
             sat = set(a for c in spec if not c.startswith(("re:", "n2re:")) for a in _atoms(c))
             lits_ = [c for c in spec if not c.startswith(("re:", "n2re:"))]
             if lits_ and all(_negated(c) in conds for c in lits_):
+                continue
+            # a row given as a family of spellings: the site is a near miss when it tests a part of what the row tests
+            hints = [NEAR_HINTS[c] for c in spec if c in NEAR_HINTS]
+            if hints and len(hints) == len([c for c in spec if c.startswith(("re:", "n2re:"))]) and not lits_ \
+                    and all(any(h in x for x in conds for h in hs) for hs in hints):
+                near = spec
                 continue
             if sat and sat <= cat and (near is None or all(_has(conds, c) for c in spec if not c.startswith(("re:", "n2re:")))):
                 near = spec
